@@ -7,7 +7,7 @@ import os
 HERE = os.path.dirname(os.path.dirname(os.path.abspath(__file__)))
 
 
-def write_evidence(prop, tier, seed, spec, results, wall, status, confirmed, known, vac, xcheck=None):
+def write_evidence(prop, tier, seed, spec, results, wall, status, confirmed, known, vac, xcheck=None, selfchecks=None):
     paths = sum(d["paths"] for d in results)
     decisions = sum(d["stats"].get("decisions", 0) for d in results)
     validated = sum(d["validated"] for d in results)
@@ -78,6 +78,7 @@ def write_evidence(prop, tier, seed, spec, results, wall, status, confirmed, kno
                            "differ_samples": [x for d in results for x in d.get("float_differ_samples", [])][:3],
                            "note": "paths whose model point is exactly representable as floats were also run with "
                                    "float costs; informational, IEEE rounding is outside the claim"},
+            "oracle_selfcheck": selfchecks or {},
             "vacuity": vac,
             "cross_checks": xcheck or {"note": "second engine / second solver run in the thorough tier only"},
             "jobs": len(results),
